@@ -143,7 +143,10 @@ CLAIMS = {
             "returns a constructor call of the own class built from refreshed state; a non-Vector argument raises. A "
             "forgotten cached field (carrier line, plane, centre, edge/pyramid sets) is exactly what makes queries on "
             "the moved receiver answer for the old position. No two in-place translations on one path of a move() reach the same object (the same field twice, or two fields that share an object "
-            "because a by-reference constructor was fed from the other field -- derived from the effect summaries). NOT decided: measures unchanged, v then -v restores "
+            "because a by-reference constructor was fed from the other field -- derived from the effect summaries). Any other value stored on the object (a memoised measure, hash, "
+            "pre-computed edge data) must be re-assigned or deleted by move(), or be translation invariant by a translation-invariance domain (positions, coordinates, "
+            "differences, invariant scalars; interprocedural) -- in that domain the measure methods (Point.distance, length, area, volume, Pyramid.height) evaluate to "
+            "'invariant', i.e. measures are unchanged by construction. NOT decided: the function volume() (through distance / intersection), v then -v restores "
             "equality (floating point)."
         ),
         note=NOTE_COMMON,
@@ -274,7 +277,10 @@ CLAIMS = {
             "mutable globals other than tolerance and logger, no memoised function hands out a mutable object (history "
             "independence); the constructors of Segment, "
             "HalfLine, ConvexPolygon, ConvexPolyhedron capture nothing by reference and Line built from Points stores "
-            "fresh vectors; no copy hooks, __slots__ or identity-based eq/hash, so the default deep copy is independent "
+            "fresh vectors; a store by a query into a hidden per-object cache is accepted only as a memo field (initialised to None or absent, written behind its sentinel / "
+            "AttributeError test, read by nothing but its accessors, not handing out mutable state, translation invariant or dropped by every in-place mutator, "
+            "independent of the tolerance); a __deepcopy__ hook is verified field by field to be the structural deep copy (every field deep-copied, or immutable, or a fresh "
+            "container of immutable elements), other copy hooks, __slots__ or identity-based eq/hash (beyond the reflexive fast path) are reported, so a deep copy is independent "
             "and equal. Outside: floating-point values of the snapshots."
         ),
         note=NOTE_COMMON + "Alias abstraction (S = what the object is, E = what it reaches) is a may-analysis: sound for 'no effect'.",
